@@ -12,6 +12,7 @@ package caseconversion
 //@   safety C16 C19
 //@   loop 0:
 //@     invariant 0 <= lastBoundary && lastBoundary <= len(s)
+//@     iter_ensures C19_a_word_starts_at_every_upper_case_rune_and_nowhere_else: ite(isUpperR(char), lastBoundary == z, lastBoundary == old(lastBoundary))
 
 //@ func caseconversion.DecodeUpperCamelCase(s) (words, err)
 //@   props C19
@@ -20,18 +21,24 @@ package caseconversion
 //@   props C19
 //@   safety C16 C19
 
+// the three boundary predicates of Go-identifier decoding, stated over the runes around byte offset i
 //@ func caseconversion.firstCharOfInitialism(s, i) (r)
 //@   props C19
 //@   safety C16 C19
 //@   requires 0 <= i && i <= len(s)
+//@   ensures C19_lower_then_upper_starts_a_word: r == (i >= 1 && isUpperR(firstRune(substr(s, i, len(s)))) && isLowerR(lastRune(substr(s, 0, i))))
 //@ func caseconversion.firstCharAfterInitialism(s, i) (r)
 //@   props C19
 //@   safety C16 C19
 //@   requires 0 <= i && i <= len(s)
+//@   ensures C19_upper_then_lower_before_the_end_starts_a_word: r == (isUpperR(firstRune(substr(s, i, len(s))))
+//@        && isLowerR(firstRune(substr(s, i + firstRuneSize(substr(s, i, len(s))), len(s))))
+//@        && i + firstRuneSize(substr(s, i, len(s))) + firstRuneSize(substr(s, i + firstRuneSize(substr(s, i, len(s))), len(s))) < len(s))
 //@ func caseconversion.lastCharOfInitialismAtEOS(s, i) (r)
 //@   props C19
 //@   safety C16 C19
 //@   requires 0 <= i && i <= len(s)
+//@   ensures C19_a_final_upper_case_rune_ends_an_initialism: r == (isUpperR(firstRune(substr(s, i, len(s)))) && i + firstRuneSize(substr(s, i, len(s))) == len(s))
 
 //@ functype func(rune) bool(f, r) (b)
 
@@ -74,7 +81,12 @@ package caseconversion
 //@     invariant len(s) <= atloop(0, len(s))
 //@     invariant initialismFound ==> len(s) < atloop(0, len(s))
 //@     invariant C19_what_was_cut_off_was_emitted: len(s) == len(old(s)) || len(words) >= 1
+//@     invariant C19_no_earlier_entry_starts_the_rest: !initialismFound ==> s == atloop(0, s) && (forall j int :: {as(global("commonInitialisms"), "[]string")[j]} 0 <= j && j < rangeidx ==>
+//@        !(len(s) >= len(as(global("commonInitialisms"), "[]string")[j]) && as(global("commonInitialisms"), "[]string")[j] == substr(s, 0, len(as(global("commonInitialisms"), "[]string")[j]))))
 //@   ensures C19_a_non_empty_run_yields_at_least_one_word: len(old(s)) > 0 ==> len(words) >= 1
+//@   at call strings.ToLower(s):
+//@     assert C19_the_rest_does_not_start_with_an_initialism: forall j int :: {as(global("commonInitialisms"), "[]string")[j]} 0 <= j && j < len(global("commonInitialisms")) ==>
+//@        !(len(s) >= len(as(global("commonInitialisms"), "[]string")[j]) && as(global("commonInitialisms"), "[]string")[j] == substr(s, 0, len(as(global("commonInitialisms"), "[]string")[j])))
 
 //@ func caseconversion.decodeLowerCaseWithSplitChar(splitChar, typeName, s) (words, err)
 //@   props C19
